@@ -26,7 +26,7 @@ Accept(c) ==
 Init == l = 1 /\ TLCSet(1, {})
 Next == /\ l <= Len(Lines)
         /\ IF NoShare(Lines[l].h, Lines[l].root) /\ Accept(Lines[l]) THEN TRUE
-           ELSE TLCSet(1, TLCGet(1) \cup {l}) /\ PrintT(<<"REJECT", l, Lines[l].op>>)
+           ELSE TLCSet(1, TLCGet(1) \cup {l}) /\ PrintT(ToJson([rej |-> l, info |-> <<Lines[l].op>>]))
         /\ l' = l + 1
-Done == TLCGet(1) = {} /\ TLCGet("stats").diameter - 1 = Len(Lines)
+Done == PrintT(ToJson([rejected_total |-> Cardinality(TLCGet(1))])) /\ TLCGet(1) = {} /\ TLCGet("stats").diameter - 1 = Len(Lines)
 =============================================================================
